@@ -8,9 +8,15 @@ CLAIMED = {
  "C02": ("bounded model checking (Kani/CBMC+CaDiCaL) of BootInformation::load on a fully symbolic 64-byte region against a decision-table oracle",
          "For every content of a 64-byte region with any declared size 0..=64 the solver shows load() returns exactly the specified outcome (Ok / ShorterThanHeader / MissingPadding / NoEndTag), never panics, and reports start/end/size exactly; null pointer separately.",
          "dev-profile semantics; region <= 64 bytes; memory behind the pointer is as large as declared"),
+ "C06": ("symbolic execution of Builder::build's MIR (own MIR->z3 engine) with symbolic slot occupancy: solver decides that exactly the set slots' byte views, each once, plus one end tag reach new_boxed; composed with Kani lemmas for new_boxed (C16), as_bytes/constructor images (C07) and load/walk (C02, C03)",
+         "For every slot occupancy with <= 2 tags present or <= 1 absent (Vec slots 0..2 elements; thorough: <= 3, dev+release MIR) the sequence handed to new_boxed contains each supplied tag's byte view exactly once, Vec kinds in call order, nothing from unset slots, and one end tag last; counterexample occupancies are replayed through the real builder natively.",
+         "Kani cannot compile multiboot2::Builder (ICE on ElfSectionsTag's layout) so the byte-level round trip is compositional; summaries: Vec/Option/slice::Iter list semantics, as_bytes as uninterpreted view, new_boxed as observation point; setter bodies (one-line slot assignments) not encoded"),
  "C07": ("bounded model checking (Kani/CBMC+CaDiCaL): differential check of every constructor's byte image against an independent spec offset/width table with symbolic arguments",
          "All argument values of the 12 sized boot-information constructors, 10 sized header-tag constructors, both header constructors and the DST constructors (memory map <= 2 areas, SMBIOS/network/EFI map <= 9 bytes, EFI descriptors <= 1, framebuffer 3 types with <= 2 colours, information request <= 3, strings <= 5 bytes): type == ID == spec number, exact unpadded size, little-endian image, accessor read-back, byte view obtainable at every address satisfying the type's alignment.",
          "dev-profile semantics; content lengths bounded as stated; ElfSectionsTag::new excluded (Kani ICE on its layout)"),
+ "C08": ("bounded model checking (Kani, dev semantics) to find inputs reaching each arithmetic overflow check + native release replay of those inputs; same harnesses decided with and without default features; MIR->z3 validity obligations for enum-typed loads",
+         "Profile half: for 40 parse/decode harnesses every reachable overflow check is replayed in the release build (dev panics vs release returns = divergence; unreachable checks mean both profiles execute the same operations). Feature half: load / ref_from_slice / walk / accessor harnesses decided under default and no-default features against the same oracles. Enum-typed loads from tag memory: validity obligation decided by z3 on the release MIR.",
+         "optimiser-level differences can only arise from UB: covered by the C01/C09 memory-safety checks and the enum-load obligations; rustc/LLVM preserving UB-free MIR is trusted; known finding K02"),
  "C09": ("bounded model checking (Kani/CBMC+CaDiCaL): header region = one exact-size symbolic memory object, CBMC pointer/bounds checks + extent assertions, unwinding assertions",
          "Fully symbolic 56-byte headers (valid magic/checksum, enumerated fields defined along the spec walk): load, tag walk, all ten typed getters with all accessors incl. the information-request list; reads outside the object or slices outside their tag fail; controlled panics allowed.",
          "dev-profile semantics; header <= 56 bytes; Debug formatters: thorough tier / compositional"),
@@ -20,6 +26,12 @@ CLAIMED = {
  "C11": ("bounded model checking (Kani/CBMC+CaDiCaL): lock-step spec walk and differential field decode for the header crate",
          "Valid 56-byte headers: accessors return stored magic/arch/length/checksum, iterator == spec walk from offset 16 (address, type, flags, size, payload extent, exhaustion); every field of the 10 header-tag kinds == little-endian decode at the specified offset; first match / absence over all orders of three tags; information-request lists of 0..5; no panic allowed.",
          "dev-profile semantics; header <= 56 bytes"),
+ "C12": ("symbolic execution of the header Builder::build MIR (own MIR->z3 engine) over all 2^10 slot occupancies x both architectures; Kani for new_boxed with the basic header (length/checksum patching) and the tag constructors",
+         "All 1024 occupancies: exactly the set slots' byte views once each plus one EndHeaderTag view last reach new_boxed (solver-decided per path); new_boxed::<DynSizedStructure<Multiboot2BasicHeader>> sets length = byte length and a valid checksum (Kani, content <= 12 bytes); constructors emit spec images (C07); counterexamples replayed through the real builder + load.",
+         "byte-level round trip is compositional (Kani on the whole builder needs 11-32 GB per subset); summaries as for C06"),
+ "C13": ("symbolic execution of find_header's MIR and its magic closure (own MIR->z3 engine), buffer length < 2^32 and all bytes symbolic, Windows::position/next and slice get/index through their specifications; z3 decides the property's case analysis per path",
+         "For every 8-aligned buffer: no panic path is feasible; the scan covers exactly the first min(len,8192) bytes; Ok(None) iff no occurrence; for the first occurrence i: Ok(Some(buffer[i..i+stored], i)) iff i%8==0 and the range is inside the buffer, an error otherwise; dev and release MIR; models replayed natively (len <= 20000).",
+         "trusted: the summaries of core::slice::Windows / Iterator::position (first-match specification) and of slice::get/Index bounds; Kani measured infeasible (8192-iteration scan at ~1 iteration/s)"),
  "C14": ("bounded model checking (Kani/CBMC+CaDiCaL) of BytesRef::try_from / ref_from_slice for four header kinds on symbolic sub-slices vs. precedence oracle; full-width rounding lemma",
          "All slices buf[a..a+len], a in 0..8, len<=40, all contents and declared sizes: error precedence, address identity, payload extent and bytes, size_of_val == round8(declared) <= len; object-bounds checks of the model catch any view past the slice.",
          "dev-profile semantics; slice <= 40 bytes; enumerated header fields hold defined values"),
@@ -47,6 +59,9 @@ CLAIMED = {
  "C18": ("bounded model checking (Kani/CBMC+CaDiCaL) of the EFI memory-map iterator with symbolic descriptor size, version, map length and contents; exact-size object for bounds",
          "d in 0..=128, L in 0..=96 (thorough 200): accepted combinations yield exactly L/d descriptors at offset i*d with decoded fields and exact len()/size_hint(); all other combinations must panic; produced descriptors are aligned and inside the tag.",
          "dev-profile semantics; map <= 200 bytes"),
+ "C19": ("Kani on the section iterator from an arbitrary state via the cfg(multiboot2_verif) hook (exact-size section area, &dyn dispatch, packed layouts) + MIR->z3 symbolic execution of cast::<ElfSectionsTag> and sections() for all stored counts/sizes/indices",
+         "Iterator: from any entry index of a 3x40 / 2x64 (thorough 4x64) byte area the walk yields exactly the in-use entries in order with type/flags/address/size/alignment from the ELF32/ELF64 layout, other entry sizes panic, state stays inside the area. sections(): for all 2^32 counts, entry sizes, indices and tag sizes the iterator handed out has all entries (and, if any, the string-table entry) inside the tag, else panics; dev == release.",
+         "Kani cannot compile ElfSectionsTag (layout ICE) hence the split; ElfSection::name() follows an address stored in the tag (documented external memory, excluded)"),
  "C20": ("bounded model checking (Kani/CBMC+CaDiCaL) with full-width symbolic u32 inputs (no loops)",
          "All 2^32 (pairs of) values: conversions round-trip, named variants exactly for the specified numbers, id wrapper commutes, all PartialEq directions equal numeric equality; all 256 framebuffer type bytes; magic constants.",
          "dev-profile semantics; ELF section-type classification via the cfg(multiboot2_verif) hook"),
